@@ -63,8 +63,8 @@ def runD (c : Cfg F) : Nat → St F → St F × Bool
 
 open FontVerif.InterpLoops FontVerif.InterpData in
 /-- `interp <limitFontCv> <limitGlyph> <stackCap> <nFuncs> <nIdefs> <glyphPoints> <twilightPoints> <cvtLen> <storageLen> <scale> <fpgm> <prep> <glyph|none>`:
-    HintInstance::reconfigure (font program, then control value program on the same engine — the value stack, the
-    storage area, the cvt and the retained graphics state carry over, everything else is reset; the glyph zone is
+    HintInstance::reconfigure (font program, then control value program on the same engine — `Engine::reset` empties the
+    value stack before each; the storage area, the cvt and the retained graphics state carry over, everything else is reset; the glyph zone is
     empty) and, when a glyph program is given and `instruct_control & 1 == 0`, HintInstance::hint in pedantic mode on
     a glyph with `glyphPoints` points (+ 4 phantom points) in one contour, with copy-on-write cvt / storage.
     Target::Mono at 16 ppem; the cvt table is all zeros. -/
@@ -83,7 +83,7 @@ def interp (limFC limG cap nF nI nPts nTwi nCvt nSto : Nat) (scale : Int) (font 
   | .stuck => "stuck"
   | .running => "running"
   | .done =>
-    let (s2, t2) := runD c fuel (initSt 1 s1.funcs s1.idefs s1.vs (s1.data.reset 1))
+    let (s2, t2) := runD c fuel (initSt 1 s1.funcs s1.idefs [] (s1.data.reset 1))
     if t2 then "tainted" else
     match s2.status with
     | .failed e => renderErr "new" s2 e
